@@ -12,8 +12,6 @@ package base
 
 // A new buffer is an empty file with cursor 0.
 //@ func NewBufferReadWriter
-//@   requires size <= 1099511627776
-//@   nopanic
 //@   ensures result != nil && fresh(result) && result.buf != nil && result.offset == 0
 
 // write(fd, p): bytes land at the cursor, the cursor advances by len(p), the size becomes
@@ -84,6 +82,5 @@ package base
 //@   ensures result == len(b.buf.buf)
 
 //@ func BufferReadWriter.Bytes
-//@   requires bshape(b)
-//@   nopanic
+//@   requires b != nil
 //@   ensures result == b.buf.buf
